@@ -141,3 +141,56 @@ def check_cross(ck, F, rule, crates, floor):
                     ck.ok(rule, key, "buffer/offset slots agree")
                 else:
                     ck.ok(rule, key, "arguments are not getter pairs (not judged)", nontrivial=False)
+
+
+# ---------------------------------------------------------------------------------------------------------
+# a window into the child of an offset-bearing parent (List / LargeList / Map / RunEndEncoded) is positioned by
+# the parent's offsets, never by a constant: `list.values()` is the WHOLE child, a sliced parent starts at
+# offsets[0] != 0.
+CHILD_GETTERS = re.compile(r"(GenericListArray|MapArray|RunArray|GenericListViewArray)(::<[^>]*>)?::(values|entries|keys)$")
+
+
+def _child_getter(b, l, depth=0):
+    """call term that produced the receiver `l` if that is `<offset-bearing parent>.values()`"""
+    ds = b.defs().get(l, [])
+    if len(ds) != 1 or depth > 6:
+        return None
+    d = ds[0]
+    if d[0] == "call":
+        n = callee(d[3]) or ""
+        if CHILD_GETTERS.search(n):
+            return d[3]
+        if n.split("::")[-1] in ("deref", "as_ref", "borrow", "clone") and d[3]["args"]:
+            l2 = op_local(d[3]["args"][0])
+            return _child_getter(b, l2, depth + 1) if l2 is not None else None
+        return None
+    if d[0] == "s" and d[3][0] in ("use", "ref"):
+        p = d[3][1][1] if d[3][0] == "use" and d[3][1][0] in ("c", "m") else (d[3][2] if d[3][0] == "ref" else None)
+        if p is not None and all(e == "*" for e in p[1]):
+            return _child_getter(b, p[0], depth + 1)
+    return None
+
+
+def check_child_window(ck, F, rule, crates, floor):
+    ck.rule(rule, "`parent.values().slice(start, len)` on the child of a List / LargeList / Map / ListView / RunEndEncoded parent takes `start` from the parent's "
+            "offsets (a computed value), not from a constant: the child is shared and unsliced, a sliced parent's first offset is not 0", floor)
+    for cn in crates:
+        for fn in F.crate(cn).fns:
+            if "mir" not in fn or fn.get("test"):
+                continue
+            b = Body(fn)
+            for bb, t in b.calls():
+                n = callee(t) or ""
+                if not n.endswith("::slice") or len(t["args"]) != 3:
+                    continue
+                rl = op_local(t["args"][0])
+                g = _child_getter(b, rl) if rl is not None else None
+                if g is None:
+                    continue
+                key = "%s -> %s.slice" % (fn["id"], (callee(g) or "").split("::")[-1])
+                from .mirlib import op_const
+                if op_const(t["args"][1]) is not None:
+                    ck.bad(rule, key, "%s: the child array of %s is sliced from the constant position %s; for a sliced parent the first element lives at the parent's first offset" % (
+                        fn["id"], flow.norm(callee(g) or ""), op_const(t["args"][1])), b.loc(bb))
+                else:
+                    ck.ok(rule, key, "start is a computed value")
